@@ -10,6 +10,7 @@ an ambiguous suffix; observations of the probes after parses; gin.finalize() at 
 The oracle is a last-writer-wins map (macro name -> value AST, probe parameter -> value AST) kept
 beside the history; it never looks into Gin.
 """
+import contextlib
 import enum
 import itertools
 import os
@@ -44,7 +45,14 @@ RULE = ('history = up to 6 constant definitions (gin.constant over modules {a,b,
         '`include` statements placed anywhere in the texts (file 1 may include file 0), so files '
         'are included repeatedly, in diamonds and across parse calls, with re-bindings in '
         'between; gin.query_parameter on a macro (%name, name/macro.value, name/gin.macro.value) '
-        'after a text and on every macro of the case before finalize; optional closing text binding every referenced but '
+        'after a text and on every macro of the case before finalize; `with gin.config.'
+        'interactive_mode():` blocks (left by an exception of the body, by a rejected gin.constant '
+        'or by a rejected ambiguous parse inside; or completed) among the constant definitions and '
+        'after texts, each followed outside the block by definitions duplicating an existing '
+        'constant; in a third of the cases gin.finalize() already after an earlier parse: the '
+        'probes are then called under the locked config, later texts are parsed inside `with '
+        'gin.unlock_config():` and the probes called again after each (delivery "api" binds '
+        'literal macros through gin.bind_parameter("%name", v)); optional closing text binding every referenced but '
         'unbound macro; probes called after observed parses and twice after the last; '
         'gin.finalize(). Non-trivial = a checked macro use precedes a definition of that macro, '
         'or a later parse redefines an already used macro, or >=2 constants share a suffix and a '
@@ -64,6 +72,12 @@ ASSUMPTIONS = [
     'rest of the history, finalize included, is judged as if it had not been made); of a macro '
     'bound to a reference-free literal it must return an equal value; of other macros nothing '
     'is asserted (only the scope-exact binding counts: %s/m with only s bound is unbound)',
+    'leaving a `with gin.config.interactive_mode():` block, normally or by an exception, ends '
+    'interactive mode: duplicate definitions outside are errors; nothing is defined or '
+    're-defined inside the blocks (what interactive mode allows is not part of the property)',
+    'bindings made inside `with gin.unlock_config():` after a successful finalize, and through '
+    'gin.bind_parameter("%name", value), are bindings like any other for "most recently bound"; '
+    'once a finalize has succeeded no second finalize is made (it is documented to raise)',
     'an include statement is in-place inclusion every time it is executed, however often the '
     'same file was included before',
     'gin.clear_config() (default clear_constants=False, documented to keep constants) empties '
@@ -95,7 +109,11 @@ FLOORS = {'nontrivial': (0.3, _H), 'nt:use-before-def': (0.15, _H),
           'const:identity-after-clear': (0.05, _H), 'const:query_parameter': (0.3, _H),
           'include:same-file-again': (0.1, _H), 'include:again-after-rebinding': (0.05, _H),
           'query:unbound-macro-refused': (0.1, _H), 'query:bound-literal-read': (0.1, _H),
-          'finalize:rejected-after-failed-query': (0.03, _H)}
+          'finalize:rejected-after-failed-query': (0.03, _H),
+          'interactive:block-left-by-exception': (0.1, _H),
+          'interactive:duplicate-after-block-rejected': (0.05, _H),
+          'lock:finalized-mid-history': (0.05, _H),
+          'lock:rebound-under-unlock-rechecked': (0.02, _H)}
 TECHNIQUE = ('model-based property testing: Hypothesis-generated parse/define/use histories against '
              'a last-writer-wins reference map, identity checks for constants, plus an exhaustive '
              'sweep of ordered constant-name pairs')
@@ -228,7 +246,11 @@ _stmt = st.one_of(
 # again after one of its macros was re-bound makes a difference
 _file_stmt = st.one_of(_def(_lit), _def(_ctr), _inc, _def(_mac), _use(_mac), _def(_lit, _lit),
                        _def(_const))
-VIAS = ['str', 'str', 'list', 'file', 'include', 'split']
+VIAS = ['str', 'str', 'list', 'file', 'include', 'split', 'api']
+
+
+# [how the interactive block ends, which existing constant is defined again afterwards]
+_iblock_st = st.tuples(st.integers(0, 3), _small).map(list)
 
 
 @st.composite
@@ -242,6 +264,8 @@ def _parse_op(draw):
           'clear': draw(st.sampled_from([0, 0, 0, 0, 0, 0, 1, 2])),
           # query_parameter on a macro after this text: [macro index, spelling]
           'query': draw(st.none() | st.tuples(_small, st.integers(0, 2)).map(list)),
+          # an interactive_mode block left by an exception, then duplicate definitions outside
+          'iblock': draw(st.none() | st.none() | st.none() | _iblock_st),
           'ambig': draw(st.none() | st.none() | st.tuples(_small, st.integers(0, 2)).map(list))}
 
 
@@ -251,6 +275,7 @@ _const_op = st.one_of(
     st.tuples(st.just('c'), st.sampled_from(CONST_NAMES)),
     st.tuples(st.just('c'), st.sampled_from(CONST_NAMES)),
     st.tuples(st.just('bad'), st.sampled_from(BAD_NAMES)),
+    st.tuples(st.just('iblock'), st.integers(0, 3), _small),
     st.tuples(st.just('enum'), st.sampled_from(ENUM_MODS), st.sampled_from(ENUM_CLASSES),
               st.lists(st.sampled_from(ENUM_MEMBERS), min_size=1, max_size=3, unique=True),
               st.booleans()),
@@ -269,6 +294,10 @@ def strategy(draw):
                              max_size=2)),
       # spelling used to query every macro of the case right before finalize (None: no queries)
       'query_end': draw(st.sampled_from([None, 0, 1, 2])),
+      # gin.finalize() already after this parse (index modulo the number of parses); when it
+      # succeeds the probes are called under the locked config and every later text is parsed
+      # inside `with gin.unlock_config():`
+      'lock_after': draw(st.sampled_from([None, None, 0, 0, 1, 2])),
       # unevaluated macro references make every finalize fail: only a third of the cases keep
       # them, in the others an 'unev' node is rendered as an ordinary %macro use
       'unev': draw(st.sampled_from([False, False, True])),
@@ -325,6 +354,9 @@ class Model:
     self.pos = 0
     self.clears = 0        # clear_config() calls so far
     self.deflog = []       # macro names in the order they were (re)bound since the last clear
+    self.locked = False    # a finalize succeeded and no clear_config came since
+    self.checked_locked = set()   # macros whose use was checked while the config was locked
+    self.rebound_unlocked = set()  # ... and that were re-bound under unlock_config afterwards
     self.refused = set()   # never-bound macros on which a query was refused since the last clear
     self.inc_state = {}    # shared file index -> (deflog length after its last inclusion,
                            #                       names it bound then)
@@ -563,6 +595,9 @@ def _clear(model, labels, flags):
   model.deflog = []
   model.inc_state = {}
   model.refused = set()
+  model.locked = False           # documented: clear_config unlocks
+  model.checked_locked = set()
+  model.rebound_unlocked = set()
   labels.add('clear_config')
   for q, n in model.ok_queries():
     got = gin.query_parameter(q)
@@ -570,6 +605,59 @@ def _clear(model, labels, flags):
             lambda: f'after {model.clears} clear_config(): query_parameter({q!r}) returned '
                     f'{got!r} (id {id(got)}), not the object defined as {n!r}: '
                     f'{model.consts[n]!r} (id {id(model.consts[n])})')
+
+
+class _CellFailed(Exception):
+  pass
+
+
+def _iblock(model, labels, how, idx):
+  """A `with gin.config.interactive_mode():` block, mostly left by an exception; afterwards, outside
+  the block, definitions duplicating an existing constant must be errors as always."""
+  names = sorted(model.consts)
+  amb = model.ambiguous_queries()
+  how %= 4
+  try:
+    with gin.config.interactive_mode():
+      if how == 0:
+        raise _CellFailed('user code failed inside the block')
+      if how == 1:
+        gin.constant('a..K', ['never'])          # rejected operation inside the block
+      if how == 2 and amb:
+        gin.parse_config(f'{PROBES[0]}.c = %{amb[idx % len(amb)]}\n')
+      if how == 2:
+        raise _CellFailed('user code failed inside the block')
+    left_by = None
+  except (_CellFailed, ValueError) as e:
+    left_by = e
+  require((left_by is None) == (how == 3), 'interactive-block-exception-lost',
+          lambda: f'interactive_mode block of kind {how} ended with {left_by!r}')
+  labels.add('interactive:block-completed' if how == 3 else 'interactive:block-left-by-exception')
+  if not names:
+    return
+  full = names[idx % len(names)]
+  for dup in sorted({full, suffixes(full)[-1]}):
+    if not c_match(names, dup):
+      continue
+    try:
+      gin.constant(dup, Payload(dup, -1))
+    except ValueError:
+      labels.add('interactive:duplicate-after-block-rejected')
+      continue
+    raise Violation('duplicate-constant-accepted',
+                    f'after an interactive_mode block (kind {how}, left by {left_by!r}) and '
+                    f'outside any such block, gin.constant({dup!r}) was accepted although it '
+                    f'matches {c_match(names, dup)}')
+  for q, n in model.ok_queries():
+    got = gin.query_parameter(q)
+    require(got is model.consts[n], 'constant-identity',
+            lambda: f'after an interactive_mode block: query_parameter({q!r}) returned {got!r}, '
+                    f'not the object defined as {n!r}')
+
+
+def _unlocked(model):
+  """Texts parsed after a successful finalize go through the documented unlock_config()."""
+  return gin.unlock_config() if model.locked else contextlib.nullcontext()
 
 
 def _pure(node):
@@ -687,6 +775,9 @@ def _define_constants(case, model, labels):
         labels.add('const:extension-of-existing-accepted')
       model.consts[name] = obj
       continue
+    if kind == 'iblock':
+      _iblock(model, labels, op[1], op[2])
+      continue
     if kind == 'enum':
       _, module, cls_name, members, explicit = op
       fulls = [f'{module}.{cls_name}.{m}' for m in members]
@@ -722,7 +813,7 @@ def _define_constants(case, model, labels):
     raise OutOfDomain(f'unknown constant op {kind!r}')
 
 
-def _deliver(via, lines, cut, tmpdir, counter, skip=False):
+def _deliver(via, lines, cut, tmpdir, counter, skip=False, concs=None):
   """Hands the text made of `lines` to Gin in the way `via` says.
 
   With `skip`, the parse is made with skip_unknown=True: every name in these texts is known
@@ -743,6 +834,15 @@ def _deliver(via, lines, cut, tmpdir, counter, skip=False):
     gin.parse_config_file(write(lines), **kw)
   elif via == 'include':
     gin.parse_config(f"include '{write(lines)}'\n", **kw)
+  elif via == 'api':
+    # statement by statement; a macro bound to a reference-free literal goes through
+    # gin.bind_parameter('%name', value), everything else through parse_config
+    for line, c in zip(lines, concs or [None] * len(lines)):
+      pure, value = _pure(c[2]) if c is not None and c[0] == 'def' else (False, None)
+      if pure:
+        gin.bind_parameter('%' + c[1], value)
+      else:
+        gin.parse_config(line + '\n', **kw)
   elif via == 'split':
     i, j = sorted((cut[0] % (len(lines) + 1), cut[1] % (len(lines) + 1)))
     path = write(lines[i:j])
@@ -752,6 +852,7 @@ def _deliver(via, lines, cut, tmpdir, counter, skip=False):
 
 
 def _observe(model, seen, labels, when, stats):
+  checked_now = set()
   for p, fn in enumerate(_probe_fns):
     params = [a for a in PARAMS if (p, a) in model.binds]
     if not params:
@@ -781,6 +882,7 @@ def _observe(model, seen, labels, when, stats):
         require(got[a] == UNSET, 'macro-value',
                 lambda: f'{when}: {PROBES[p]}.{a} was never bound but received {got[a]!r}')
     stats['checked_macros'] |= m.checked_macros
+    checked_now |= m.checked_macros
     stats['checked_consts'] += m.checked_consts
     stats['calls'] += 1
     if m.checked_consts and model.clears:
@@ -791,6 +893,13 @@ def _observe(model, seen, labels, when, stats):
             lambda: f'{when}: query_parameter({q!r}) returned {got!r} (id {id(got)}), not the '
                     f'object defined as {n!r}: {model.consts[n]!r} (id {id(model.consts[n])})')
     labels.add('const:query_parameter')
+  if model.locked:
+    labels.add('lock:probes-called-while-locked')
+    if checked_now & model.rebound_unlocked:
+      # the same reference objects were evaluated before the re-binding, also under the lock
+      labels.add('lock:rebound-under-unlock-rechecked')
+    model.rebound_unlocked -= checked_now
+    model.checked_locked |= checked_now
 
 
 def check_case(case):
@@ -890,6 +999,8 @@ def check_case(case):
         model.macros[c[1]] = node
         model.defs.setdefault(c[1], []).append((model.pos, k))
         model.deflog.append(c[1])
+        if model.locked and c[1] in model.checked_locked:
+          model.rebound_unlocked.add(c[1])
       else:
         node = c[3]
         model.binds[(c[1], c[2])] = node
@@ -901,6 +1012,43 @@ def check_case(case):
         if in_key:
           labels.add('use:in-dict-key')
 
+    def do_finalize(scope, when):
+      """gin.finalize() against the model; True when it had to succeed (config now locked)."""
+      offenders = model.offenders()
+      try:
+        with gin.config_scope(scope or None):
+          gin.finalize()
+        raised = None
+      except Exception as e:  # pylint: disable=broad-except
+        raised = e
+      if scope:
+        labels.add('finalize:inside-config-scope')
+      if offenders:
+        require(raised is not None, 'finalize-accepted',
+                lambda: f'{when}: finalize() returned although the configuration has '
+                        f'{offenders[:4]}')
+        require(not gin.config_is_locked(), 'locked-after-rejected-finalize',
+                lambda: f'{when}: finalize() raised {type(raised).__name__} and left the config '
+                        f'locked')
+        if any(o[0] == 'unbound' and o[1] in model.refused for o in offenders):
+          labels.add('finalize:rejected-after-failed-query')
+        kinds = {o[0] for o in offenders}
+        for kd in kinds:
+          labels.add('finalize:rejected-' + kd)
+        if all(o[2] > 0 for o in offenders):
+          labels.add('finalize:offender-only-nested')
+        if all(o[4] for o in offenders):
+          labels.add('finalize:offender-only-in-dict-key')
+        if len(offenders) == 1:
+          labels.add('finalize:single-offender')
+        return False
+      require(raised is None, 'finalize-rejected',
+              lambda: f'{when}: finalize() raised {type(raised).__name__}: {str(raised)[:300]} '
+                      f'although every referenced macro is bound and evaluated')
+      labels.add('finalize:accepted')
+      model.locked = True
+      return True
+
     for i, fstmts in enumerate(files):
       flines = [line_of(c) for c in (concrete(prim, i) for st_ in fstmts
                                      for prim in expand(st_, i)) if c is not None]
@@ -911,17 +1059,24 @@ def check_case(case):
     for k, op in enumerate(parses):
       for _ in range(op.get('clear', 0) or 0):
         _clear(model, labels, flags)
-      lines = []
+      lines, concs = [], []
       for stmt in op['stmts']:
         for prim in expand(stmt, None):
           c = concrete(prim, None)
           if c is None:
             continue
           lines.append(line_of(c))
+          concs.append(c)
           apply(c, k)
       if not lines:
         lines.append('# nothing')
-      _deliver(op['via'], lines, op.get('cut', [0, 0]), tmpdir, fileno, skip=op.get('skip', False))
+        concs.append(None)
+      with _unlocked(model):
+        _deliver(op['via'], lines, op.get('cut', [0, 0]), tmpdir, fileno,
+                 skip=op.get('skip', False), concs=concs)
+      if model.locked:
+        labels.add('lock:text-under-unlock_config')
+        require(gin.config_is_locked(), 'unlock_config-did-not-relock', '')
       labels.add('via:' + op['via'])
       if op['via'] in ('file', 'include', 'split'):
         labels.add('via:file-or-include')
@@ -932,7 +1087,11 @@ def check_case(case):
         for q in qs:
           text = ['%' + q, '[1, %' + q + ']', "{'x': (0, [%" + q + '])}'][op['ambig'][1] % 3]
           try:
-            gin.parse_config(f'{PROBES[0]}.c = {text}\n')
+            with _unlocked(model):
+              try:
+                gin.parse_config(f'{PROBES[0]}.c = {text}\n')
+              except ValueError:
+                raise
           except ValueError:
             ambiguous_rejected += 1
             labels.add('const:ambiguous-rejected')
@@ -943,9 +1102,16 @@ def check_case(case):
       if op.get('query') is not None:
         _query_macro(model, labels, names[op['query'][0] % len(names)], op['query'][1],
                      f'after parse {k + 1}')
-      if op.get('observe') and k < len(parses) - 1:
+      if op.get('iblock') is not None:
+        _iblock(model, labels, op['iblock'][0], op['iblock'][1])
+      if (op.get('observe') or model.locked) and k < len(parses) - 1:
         _observe(model, seen, labels, f'after parse {k + 1}', stats)
         labels.add('observed-mid-history')
+      if (case.get('lock_after') is not None and not model.locked and
+          k == case['lock_after'] % len(parses) and k < len(parses) - 1):
+        if do_finalize('', f'finalize after parse {k + 1}'):
+          labels.add('lock:finalized-mid-history')
+          _observe(model, seen, labels, f'locked after parse {k + 1}', stats)
 
     if case.get('close'):
       missing = sorted({name for _, name, _, _, _ in model.offenders()
@@ -958,7 +1124,11 @@ def check_case(case):
           lines.append(f'{name} = {render(node)}')
           model.macros[name] = node
           model.defs.setdefault(name, []).append((model.pos, len(parses)))
-        _deliver(case['close'], lines, [0, 0], tmpdir, fileno)
+          model.deflog.append(name)
+          if model.locked and name in model.checked_locked:
+            model.rebound_unlocked.add(name)
+        with _unlocked(model):
+          _deliver(case['close'], lines, [0, 0], tmpdir, fileno)
         labels.add('closing-text')
 
     _observe(model, seen, labels, 'after the last parse', stats)
@@ -968,37 +1138,8 @@ def check_case(case):
       for name in names:
         _query_macro(model, labels, name, case['query_end'], 'before finalize')
 
-    if case.get('finalize'):
-      offenders = model.offenders()
-      try:
-        with gin.config_scope(case.get('finalize_scope') or None):
-          gin.finalize()
-        raised = None
-      except Exception as e:  # pylint: disable=broad-except
-        raised = e
-      if case.get('finalize_scope'):
-        labels.add('finalize:inside-config-scope')
-      if offenders:
-        require(raised is not None, 'finalize-accepted',
-                lambda: f'finalize() returned although the configuration has {offenders[:4]}')
-        require(not gin.config_is_locked(), 'locked-after-rejected-finalize',
-                lambda: f'finalize() raised {type(raised).__name__} and left the config locked')
-        if any(o[0] == 'unbound' and o[1] in model.refused for o in offenders):
-          labels.add('finalize:rejected-after-failed-query')
-        kinds = {o[0] for o in offenders}
-        for kd in kinds:
-          labels.add('finalize:rejected-' + kd)
-        if all(o[2] > 0 for o in offenders):
-          labels.add('finalize:offender-only-nested')
-        if all(o[4] for o in offenders):
-          labels.add('finalize:offender-only-in-dict-key')
-        if len(offenders) == 1:
-          labels.add('finalize:single-offender')
-      else:
-        require(raised is None, 'finalize-rejected',
-                lambda: f'finalize() raised {type(raised).__name__}: {str(raised)[:300]} although '
-                        f'every referenced macro is bound and evaluated')
-        labels.add('finalize:accepted')
+    if case.get('finalize') and not model.locked:
+      if do_finalize(case.get('finalize_scope') or '', 'finalize'):
         _observe(model, seen, labels, 'after finalize', stats)
   finally:
     shutil.rmtree(tmpdir, ignore_errors=True)
